@@ -474,6 +474,17 @@ func c18ConcCheck(c C18ConcCase, rec *evid.Rec) error {
 		wg.Add(1)
 		go func(w int) {
 			defer wg.Done()
+			// every other writer is "another process": it opens the directory itself, while the others are starting
+			// or already at work (opening a store must not disturb, or be disturbed by, its other users)
+			fs := fs
+			if w%2 == 1 {
+				own, oerr := openFS(dir, "hex", c.Sharding)
+				if oerr != nil {
+					errs <- fmt.Errorf("writer %d: opening the directory while other stores use it failed: %v", w, oerr)
+					return
+				}
+				fs = own
+			}
 			for r := 0; r < c.Rounds; r++ {
 				ki := (w + r) % c.Keys
 				var err error
